@@ -1,6 +1,6 @@
 (* Tables/FibHash.v — the hash-table FIB model (real table, virtual table with md, virtual-name sets; any m) refines
    the flat specification (C05), and its three tables hold exactly what the live entries require (C08 tables part). *)
-From Tables Require Import ModelAssoc ModelFib Assoc Lpm FibTree.
+From Tables Require Import ModelAssoc ModelTree ModelFib Assoc Tree Lpm FibTree.
 From Coq Require Import Lia Permutation.
 Local Open Scope nat_scope.
 
